@@ -42,6 +42,7 @@ func InstallHooks() {
 		jsonata.VerifYield = engine.HookYield
 		jsonata.VerifStep = func(n jparse.Node) error { return engine.HookStep(n) }
 		jsonata.VerifLockWait = engine.HookLockWait
+		installAuto()
 		// lock calibration: does the code really hold globalRegistryMutex at
 		// the yield points inside its two critical sections?
 		jsonata.VerifResetGlobals()
@@ -550,11 +551,15 @@ func Execute(spec *Spec, opt Options) *Result {
 		res.Strategy = "replay"
 	}
 	maxEvents := MaxEvents
+	if AutoYield {
+		maxEvents *= 30
+	}
 	if spec.MaxEvents > 0 {
 		maxEvents = spec.MaxEvents
 	}
 	s := engine.New(strat, spec.Switches, maxEvents)
 	s.Now, s.Advance = opt.Now, opt.Advance
+	s.KeepEvents = DebugEvents
 	r.sched = s
 	for ti := range spec.Tasks {
 		ti := ti
@@ -570,13 +575,24 @@ func Execute(spec *Spec, opt Options) *Result {
 	}
 
 	// ---- after the join (or abandonment) ----
-	res.Events = len(s.Events)
+	res.Events = s.EventCount
+	for site, v := range s.Preemptions() {
+		s.Probes["preempt@"+site] += v
+	}
 	res.Switches = s.Recorded
 	if spec.Switches != nil {
 		res.Switches = spec.Switches
 	}
 	res.SwitchCount = s.SwitchCount
+	if AutoYield {
+		res.Strategy += "+auto"
+	}
 	for k, v := range s.Probes {
+		if strings.HasPrefix(k, "preempt@a:") {
+			res.Probes["preempt@auto"] += v
+			res.WindowSw += v
+			continue
+		}
 		res.Probes[k] = v
 		if strings.HasPrefix(k, "preempt@") && k != "preempt@eval" && k != "preempt@op.end" {
 			res.WindowSw += v
@@ -959,16 +975,7 @@ func (r *runner) extChecks(res *Result, ti, oi int, op *Op, or *OpResult, ei *ex
 // site, next) plus every operation outcome. Addresses and map-order dependent
 // data never enter it.
 func (r *runner) hashEvents(res *Result, s *engine.Sched) {
-	h := sha256.New()
-	sig := sha256.New()
-	var prevTask = -2
-	for _, ev := range s.Events {
-		fmt.Fprintf(h, "%d %d %d %d %s %d\n", ev.Seq, ev.Task, ev.Op, ev.Yield, ev.Site, ev.Next)
-		if ev.Next != prevTask && ev.Task >= 0 && ev.Next != ev.Task {
-			fmt.Fprintf(sig, "%d %s %d\n", ev.Task, ev.Site, ev.Next)
-		}
-		prevTask = ev.Next
-	}
+	h := s.EventHash() // the engine streamed the schedule into it
 	if !res.Tainted {
 		for ti := range r.results {
 			for oi := range r.results[ti] {
@@ -987,7 +994,7 @@ func (r *runner) hashEvents(res *Result, s *engine.Sched) {
 		}
 	}
 	res.EventHash = hex.EncodeToString(h.Sum(nil))
-	res.SchedSig = hex.EncodeToString(sig.Sum(nil)[:8])
+	res.SchedSig = hex.EncodeToString(s.SigSum()[:8])
 }
 
 // MarshalSpec renders a spec as indented JSON.
